@@ -174,3 +174,25 @@ def profile_catalogue(tier, n=2, heavy=False):
         out.append((["SandyLoam"] * n, [0.05] + [0.15] * (n - 1)))
         out.append((["Clay"] * n, [0.2] * n))
     return out
+
+
+# ------------------------------------------------------------------------------------------------ contract stubs
+def stub_root_zone_water(prof, z_root, th, z_top, zmin, aer):
+    """contract of root_zone_water (proved by harness 'root_zone_water'): fresh outputs constrained by its ensures"""
+    ctx = symx.active()
+    f = ctx.fresh_real
+    taw_rz = f("TAW_Rz", 1e-3, 1e4)
+    taw_zt = f("TAW_Zt", 1e-3, 1e4)
+    dr_rz = f("Dr_Rz", -1e4, 1e4)
+    dr_zt = f("Dr_Zt", -1e4, 1e4)
+    ctx.assume(dr_rz <= taw_rz)
+    ctx.assume(dr_zt <= taw_zt)
+    wr = f("Wr", 0, 1e4)
+    th_s = f("thRZ_S", 0.01, 1)
+    th_fc = f("thRZ_FC", 0.01, 1)
+    th_wp = f("thRZ_WP", 0.0, 1)
+    th_dry = f("thRZ_Dry", 0.0, 1)
+    th_aer = f("thRZ_Aer", -1, 1)
+    th_act = f("thRZ_Act", 0.0, 1)
+    ctx.assume(And(th_wp < th_fc, th_fc <= th_s, th_dry <= th_wp, th_aer < th_s, th_act <= th_s + 1e-3))
+    return (wr, dr_zt, dr_rz, taw_zt, taw_rz, th_act, th_s, th_fc, th_wp, th_dry, th_aer)
